@@ -101,8 +101,9 @@ int main(int argc, char** argv) {
         e = deser('j', d, rk, in, consumed, DeserializationOption::Filter(fd.as<JsonVariantConst>()), DeserializationOption::NestingLimit((uint8_t)lim));
         size_t req = SPY0.requested;
         JsonDocument u(&SPY0); SPY0.requested = 0; long c2;
-        deser('j', u, rk, in, c2, DeserializationOption::NestingLimit((uint8_t)lim));
-        out = string(e.c_str()) + " " + showS(d.as<JsonVariantConst>()) + " " + num(consumed) + " req=" + std::to_string(req) + " requ=" + std::to_string(SPY0.requested);
+        DeserializationError eu = deser('j', u, rk, in, c2, DeserializationOption::NestingLimit((uint8_t)lim));
+        out = string(e.c_str()) + " " + showS(d.as<JsonVariantConst>()) + " " + num(consumed) + " req=" + std::to_string(req) + " requ=" + std::to_string(SPY0.requested) +
+              " requ:" + eu.c_str() + ":" + showS(u.as<JsonVariantConst>());
       } else {
         e = deser('j', d, rk, in, consumed, DeserializationOption::NestingLimit((uint8_t)lim));
         out = string(e.c_str()) + " " + showS(d.as<JsonVariantConst>()) + " " + num(consumed);
@@ -164,7 +165,17 @@ int main(int argc, char** argv) {
       size_t ret = op == "jsonbuf" ? serializeJson(d, blk + G, cap) : op == "prettybuf" ? serializeJsonPretty(d, blk + G, cap) : serializeMsgPack(d, blk + G, cap);
       bool guard = true;
       for (size_t i = 0; i < G; i++) if ((unsigned char)blk[i] != 0xAA || (unsigned char)blk[G + cap + i] != 0xAA) guard = false;
-      out = "ret=" + std::to_string(ret) + " buf=" + (cap ? hexs(blk + G, cap) : "-") + (guard ? " guard-ok" : " GUARD-BROKEN");
+      // property oracle, evaluated on the implementation's own full text
+      string ref; if (op == "jsonbuf") serializeJson(d, ref); else if (op == "prettybuf") serializeJsonPretty(d, ref); else serializeMsgPack(d, ref);
+      size_t want = ref.size() < cap ? ref.size() : cap; string badbuf;
+      if (ret != want) badbuf = "count";
+      else if (memcmp(blk + G, ref.data(), want) != 0) badbuf = "prefix";
+      else {
+        bool text = op != "mpbuf"; size_t i = want;
+        if (text && ref.size() < cap) { if (blk[G + i] != 0) badbuf = "nul-missing"; i++; }
+        for (; i < cap && badbuf.empty(); i++) if ((unsigned char)blk[G + i] != 0xAA) badbuf = "touched-beyond";
+      }
+      out = "ret=" + std::to_string(ret) + " buf=" + (cap ? hexs(blk + G, cap) : "-") + (guard ? " guard-ok" : " GUARD-BROKEN") + (badbuf.empty() ? " buf-ok" : " BUF-BAD:" + badbuf);
       free(blk);
     } else if (op == "jsonrt" || op == "mprt") {
       // C07/C17: serialize, deserialize the result, serialize again
